@@ -188,7 +188,8 @@ pub fn run(tape: &[u8], cx: &Cx) -> Outcome {
     let mut t = Tape::new(tape);
     let n = 1 + t.choose(6);
     let mut l: Vec<(u32, u32)> = Vec::new();
-    let edge = [0u32, 1, 2, 0x61, 0x62, 0x63, 0xFFFF, 0x10000, MAX - 2, MAX - 1, MAX];
+    // ends of the alphabet, and the seams of the Unicode code space inside it (surrogate block, BMP end)
+    let edge = [0u32, 1, 2, 0x61, 0x62, 0x63, 0x7F, 0x80, 0xD7FF, 0xD800, 0xDBFF, 0xDC00, 0xDFFF, 0xE000, 0xFFFD, 0xFFFF, 0x10000, MAX - 2, MAX - 1, MAX];
     let pick = |t: &mut Tape, l: &Vec<(u32, u32)>| -> u32 {
         match t.weighted(&[3, 3, 2, 2]) {
             0 => t.pick(&edge),
@@ -262,6 +263,32 @@ pub fn enumerate(n: u32, part: usize, parts: usize, sink: &mut EnumSink) {
         }
         if sink.failed() {
             return;
+        }
+    }
+    // second universe: the seams of the code space (every interval and ordered pair)
+    {
+        let pts = [0u32, 1, 0x7F, 0x80, 0xD7FF, 0xD800, 0xDBFF, 0xDC00, 0xDFFF, 0xE000, 0xFFFD, 0xFFFF, 0x10000, MAX - 1, MAX];
+        let singles: Vec<(u32, u32)> = pts.iter().map(|&c| (c, c)).collect();
+        let u2 = Universe::from_intervals(&singles);
+        let ivs2 = u2.all_intervals();
+        for (idx, &a) in ivs2.iter().enumerate() {
+            if idx % parts != part {
+                continue;
+            }
+            let mut o = Outcome::default();
+            check_unary(&u2, a, &mut o);
+            sink.case(&o, false, || format!("interval {}", show_iv(a)));
+            for &b in &ivs2 {
+                let mut o = Outcome::default();
+                check_pair(&u2, a, b, &mut o);
+                sink.case(&o, nontrivial_pair(a, b) && a != b, || format!("pair {} {}", show_iv(a), show_iv(b)));
+            }
+            if sink.failed() {
+                return;
+            }
+        }
+        if part == 0 {
+            sink.stats.exhaustive_spaces.push(format!("all {} intervals whose end points are among 0, 1, 0x7f, 0x80, 0xd7ff, 0xd800, 0xdbff, 0xdc00, 0xdfff, 0xe000, 0xfffd, 0xffff, 0x10000, MAX-1, MAX or their neighbours: every interval and ordered pair", ivs2.len()));
         }
     }
     if part == 0 {
